@@ -290,8 +290,9 @@ def readBlock (bytes : List Nat) : Res (Bool × Block × List Nat) :=
     match parseBody (h % 128) (beNat [a, b, c]) (rest.take (beNat [a, b, c])) with
     | .error e => .error e
     | .ok (blk, left) =>
-      -- `LimitedReader.size` after the parse: declared size minus what was consumed
-      if beNat [a, b, c] - ((rest.take (beNat [a, b, c])).length - left.length) != 0 then .error (.err "InvalidMetadataBlockSize")
+      -- `LimitedReader.size` must be 0 after the parse: the body parser consumed the declared size exactly, i.e. it
+      -- left nothing of the body unread and the body was not cut short by the end of the file
+      if !left.isEmpty || (rest.take (beNat [a, b, c])).length != beNat [a, b, c] then .error (.err "InvalidMetadataBlockSize")
       else .ok (h / 128 == 1, blk, rest.drop (beNat [a, b, c]))
   | _ => .error .eof
 
